@@ -622,9 +622,9 @@ func main() {
 	c.AddCase(fmt.Sprintf("CaseConst %s %s %s", gstrs([]string{v1.CapacityTypeLabelKey, corev1.LabelTopologyZone, cloudprovider.ReservationIDLabel, v1.CapacityTypeReserved, v1.CapacityTypeSpot, v1.CapacityTypeOnDemand}),
 		kit.GList(wk), gz(disruption.MinInstanceTypesForSpotToSpotConsolidation)), caseJSON{Kind: "constants"}, "")
 
-	scale := 1
+	scale, shard := 1, 90
 	if c.Thorough() {
-		scale = 8
+		scale, shard = 6, 200
 	}
 	runUnits(c, 150*scale)
 	plan := []struct {
@@ -648,5 +648,5 @@ func main() {
 		}
 	}
 	runProbes(c)
-	c.Finish("From KV Require Import C06.Model C06.Spec C06.Check.", "case", "check_all", 90)
+	c.Finish("From KV Require Import C06.Model C06.Spec C06.Check.", "case", "check_all", shard)
 }
